@@ -11,8 +11,8 @@ def run(tier):
     if tier == "quick":
         cfgs, beh = model_behaviours(c, tier, cfgsel=[1, 3, 5, 7, 8])
     else:
-        cfgs, beh = model_behaviours(c, tier, cfgsel=[1, 3], maxuses=3)
-        cfgs1, beh1 = model_behaviours(c, tier, cfgsel=[5, 7, 8], maxuses=2)
+        cfgs, beh = model_behaviours(c, tier, cfgsel=[1, 3, 5, 7, 8], maxuses=3)
+        cfgs1, beh1 = [], []
         beh += beh1
     # free-value routing (multi-value argument / flag / positional) needs three uses: own run with MaxUses = 3
     if tier == "thorough":
